@@ -179,7 +179,7 @@ class E2:
             self.cross.append({"query": tag, "error": str(e)})
 
     def prove(self, name, what, assumptions, goal, *, dom_name, functions, witness_terms=None, role=None,
-              replay=None, cap_ms=None, extra_bounds=None):
+              replay=None, cap_ms=None, extra_bounds=None, prefer=None):
         """assumptions: list of z3 bools; goal: z3 bool.  Adds an Obligation to the report."""
         engine = "E2-z3-" + dom_name
         bounds = dict(extra_bounds or {})
@@ -203,6 +203,11 @@ class E2:
                             witness=witness, role=role, detail=detail)
             return self.rep.add(ob)
         if r == z3.sat:
+            if prefer:
+                # try to obtain a more readable counterexample (finite, moderate magnitudes)
+                r2, m2, t2 = self.check(list(assumptions) + [z3.Not(goal)] + list(prefer), cap_ms=5000)
+                if r2 == z3.sat:
+                    m = m2
             model = {}
             if witness_terms:
                 model = {k: show(model_value(m, t)) for k, t in witness_terms.items()}
